@@ -16,6 +16,12 @@ CHECKS.update({
   'C14': dict(text='Bounded symbolic execution of the real x86 validator + encoder for representative instructions of the encoding classes with arbitrary input: three operands each symbolic over {none, register of any type and any 32-bit id, memory with every signature bit / base / index / 64-bit offset free, any 64-bit immediate, label with any id}, every defined option bit, arbitrary extra register, in both modes. The solver shows: no UBSan trap, no ASMJIT_ASSERT, no invalid dereference; an error leaves cursor, section size, fixup/relocation/address-table counts untouched, clears one-shot state and reports exactly once; success appends 1..15 bytes.',
               ref='3/C14', note='Instruction id fixed per harness (32 ids x 2 modes, rotated by seed in quick); operands 4..6 none; throwing error handlers and a64 are outside; CodeHolder fixup/reloc services are counting stubs; known finding D4 (16-byte instruction) is confined to a companion harness. ' + TRUST),
 })
+CHECKS.update({
+  'C02': dict(text='Bounded symbolic execution of the real a64::Assembler::_emit: hand-written harnesses for the main GP and SIMD encoding classes plus a family generated from db/isa_aarch64.json (2152 of 2390 implementable forms) check, for every register id 0..63 per operand (incl. SP/ZR and out-of-range ids), every arrangement/element index, every shift/extend kind and amount, immediates over 2^64 and offsets over 2^32, that an accepted call appends exactly the word(s) whose fixed bits match the database template and whose fields equal ARM-ARM functions of the operands, and that unencodable operands are refused with nothing appended.',
+              ref='3/C02', note='Forms not generated are listed with reasons in checks/C02/forms_index.py; 102 database errata against the ARM ARM are corrected in gen_forms.py; labels/literals are C03; fifteen genuine defects (C02A-C02O) are confined to companion harnesses as known findings or fixed. ' + TRUST),
+  'C13': dict(text='The C01 form family compiled as agreement checks: for the same symbolic operand space the real encoder is executed twice, with strict validation on and off, and the solver shows equal acceptance, equal length and equal bytes; the both-accept witness must be reachable for every form the pinned release accepts (vendored list), so a form that silently stops being accepted makes the check fail.',
+              ref='3/C13', note='Name round trip (inst_id_to_string/string_to_inst_id) did not reach a verdict within budget and is outside; near-miss mutations are covered only through C14; AArch64 has no operand validator. Family rotated by seed. ' + TRUST),
+})
 NOT_APPLICABLE = {
 }
 PENDING = 'solver-based harness not built yet in this round (see DESIGN.md section 3 for the plan)'
